@@ -29,7 +29,10 @@ func (r *yieldRewriter) rewriteRanges(block *ast.BlockStmt) {
 			// L: for ... range ...  =>  it := ...; L: for it.MoveNext() ...
 			// the range stmt is not an element of a stmt list, the init goes in front of the label
 			if rng, ok := n.Stmt.(*ast.RangeStmt); ok {
-				r.rewriteRange(rng, func(init *ast.AssignStmt, forStmt *ast.ForStmt) {
+				r.rewriteRange(rng, func(pre, init *ast.AssignStmt, forStmt *ast.ForStmt) {
+					if pre != nil {
+						c.InsertBefore(pre)
+					}
 					c.InsertBefore(init)
 					n.Stmt = forStmt
 				})
@@ -38,7 +41,10 @@ func (r *yieldRewriter) rewriteRanges(block *ast.BlockStmt) {
 			if _, labeled := c.Parent().(*ast.LabeledStmt); labeled {
 				return true // rewritten when the label is visited
 			}
-			r.rewriteRange(n, func(init *ast.AssignStmt, forStmt *ast.ForStmt) {
+			r.rewriteRange(n, func(pre, init *ast.AssignStmt, forStmt *ast.ForStmt) {
+				if pre != nil {
+					c.InsertBefore(pre)
+				}
 				c.InsertBefore(init)
 				c.Replace(forStmt)
 			})
@@ -47,11 +53,14 @@ func (r *yieldRewriter) rewriteRanges(block *ast.BlockStmt) {
 	})
 }
 
-func (r *yieldRewriter) rewriteRange(n *ast.RangeStmt, emit func(*ast.AssignStmt, *ast.ForStmt)) {
+// emit receives an optional stmt which must precede the iterator definition
+func (r *yieldRewriter) rewriteRange(n *ast.RangeStmt, emit func(pre, init *ast.AssignStmt, forStmt *ast.ForStmt)) {
+	var pre *ast.AssignStmt
 	do := func(ctor string, arg ast.Expr) {
 		factory := r.SeqSelect(ctor)
 		iter := X.Call(factory, arg)
-		emit(r.rewriteRangeToForIter(n, iter))
+		init, forStmt := r.rewriteRangeToForIter(n, iter)
+		emit(pre, init, forStmt)
 	}
 
 	xTy := r.pkg.TypeOf(n.X)
@@ -75,7 +84,15 @@ func (r *yieldRewriter) rewriteRange(n *ast.RangeStmt, emit func(*ast.AssignStmt
 	case *types.Array:
 		// typing workaround for abstract generic array iter
 		// type can't be infered from array, so we wrap it with slice
-		typeInfered := &ast.SliceExpr{X: n.X}
+		arr := n.X
+		if !r.addressable(n.X) {
+			// an array value which is not addressable (a call result, a composite literal) can't be sliced,
+			// it is copied first, as the range stmt does
+			tmp := X.Ident(r.gensym(cstArrVar))
+			pre = X.Define(tmp, n.X)
+			arr = tmp
+		}
+		typeInfered := &ast.SliceExpr{X: arr}
 		do(cstNewSliceIter, typeInfered)
 	case *types.Slice:
 		do(cstNewSliceIter, n.X)
@@ -86,6 +103,11 @@ func (r *yieldRewriter) rewriteRange(n *ast.RangeStmt, emit func(*ast.AssignStmt
 	case *types.Signature:
 		panic("implement me: range func")
 	}
+}
+
+func (r *yieldRewriter) addressable(x ast.Expr) bool {
+	tv, ok := r.pkg.TypesInfo.Types[x]
+	return !ok || tv.Addressable()
 }
 
 func (r *yieldRewriter) rewriteRangeToForIter(
